@@ -181,7 +181,18 @@ def main():
         cases = [c for c in cases if re.search(only, c.tag)]
     rej = rejected_observations()
     bad = [r for r in rej if not r['build_failed']]
-    rc = runner.run_property('C10', cases, tier=tier, chunk=1,
+    sys.path.insert(0, os.path.dirname(os.path.abspath(__file__)))
+    import check_kernel
+    konly = bool(only and only.startswith('VHarness'))
+    krc, kev = check_kernel.run(tier) if (konly or not only) else (0, None)
+    if konly:
+        return krc
+
+    def post(ev, rep):
+        if kev:
+            ev['coverage']['kernel_checks'] = kev['coverage']
+            ev['violations'] += kev['violations']
+    rc = krc | runner.run_property('C10', cases, tier=tier, chunk=1, post=post,
                              title='initialisation order of packages, files, variables and init functions under every subset of suspending initialisers; go:linkname targets in both import directions',
                              bounds={'yield points': 'each dynamic VerifYield() in an initialiser or init function is an independent symbolic boolean (<= 14 per program); every subset explored',
                                      'programs': '%d templates (4 packages in a chain/diamond; 3 files in one package; hidden dependencies through methods, closures, method expressions, multi-value initialisers)' % len(cases),
